@@ -28,6 +28,7 @@ theorem feedLoop_files_prefix (items : List Item) : ∀ (st : St) (last : Bytes)
         · split
           · exact ih st last true
           · exact ⟨[], by simp⟩
+          · exact ⟨[], by simp⟩
           · rename_i renamed _
             obtain ⟨ex, h⟩ := ih { addFile st renamed f.content with count := upd st.count name (st.count name + 1) } renamed false
             exact ⟨(renamed, f.content) :: ex, by rw [h]; simp [addFile]⟩
@@ -81,314 +82,25 @@ theorem feedLoop_patch_prefix (items : List Item) : ∀ (st : St) (last : Bytes)
         · split
           · exact ih st last true n
           · exact ⟨[], by simp⟩
+          · exact ⟨[], by simp⟩
           · rename_i renamed _
             obtain ⟨ex, h⟩ := ih { addFile st renamed f.content with count := upd st.count name (st.count name + 1) } renamed false n
             exact ⟨ex, by rw [h]; rfl⟩
 
-/-! ### a generic invariant principle for FileLoop
-
-`Q st r`: the invariant with a budget `r` of items still to come (after the ones of this call);
-`A` restricts the names that occur.  Every way the loop changes the state is one hypothesis. -/
+/-! ### a generic invariant principle for FileLoop: every way the loop changes the state is one hypothesis -/
 
 def renameSt (st : St) (name renamed content : Bytes) : St :=
   { addFile st renamed content with count := upd st.count name (st.count name + 1) }
 
-theorem feedLoop_inv (Q : St → Nat → Prop) (A : Bytes → Prop)
-    (mono : ∀ st a b, Q st a → b ≤ a → Q st b)
-    (hpatch : ∀ st t f r, Q st r → Q (addPatch st t f) r)
-    (hnew : ∀ st name c r, Q st (r + 1) → A name → st.index name = none → Q (addFile st name c) r)
-    (hren : ∀ st name idx c renamed r, Q st (r + 1) → A name → st.index name = some idx →
-      probe st name c (st.count name) idx 1 = .fresh renamed → Q (renameSt st name renamed c) r)
-    (items : List Item) : ∀ (st : St) (last : Bytes) (skip : Bool) (r : Nat),
-    (∀ f ∈ items, ∀ n, f.name = some n → A n) → Q st (items.length + r) →
-    Q (feedLoop st last skip items).1 r := by
+theorem feedLoop_inv (Q : St → Prop)
+    (hpatch : ∀ st t f, Q st → Q (addPatch st t f))
+    (hnew : ∀ st name c, Q st → st.index name = none → Q (addFile st name c))
+    (hren : ∀ st name idx c renamed, Q st → st.index name = some idx →
+      probe st name c (st.files.length + 1) idx 1 = .fresh renamed → Q (renameSt st name renamed c))
+    (items : List Item) : ∀ (st : St) (last : Bytes) (skip : Bool),
+    Q st → Q (feedLoop st last skip items).1 := by
   induction items with
-  | nil => intro st last skip r _ h; simpa [feedLoop] using h
-  | cons f rest ih =>
-    intro st last skip r hA h
-    have hA' : ∀ g ∈ rest, ∀ n, g.name = some n → A n := fun g hg => hA g (List.mem_cons_of_mem _ hg)
-    have h1 : Q st (rest.length + r + 1) := by
-      have : (f :: rest).length + r = rest.length + r + 1 := by simp; omega
-      rw [this] at h; exact h
-    have h0 : Q st (rest.length + r) := mono _ _ _ h1 (by omega)
-    unfold feedLoop
-    split
-    · split
-      · exact ih st last true r hA' h0
-      · split
-        · exact mono _ _ _ h0 (by omega)
-        · exact ih _ last false r hA' (hpatch _ _ _ _ h0)
-    · rename_i name hname
-      have hAn : A name := hA f (List.mem_cons_self) name hname
-      split
-      · rename_i hidx
-        exact ih _ name false r hA' (hnew _ _ _ _ h1 hAn hidx)
-      · rename_i idx hidx
-        split
-        · exact ih _ name false r hA' (hpatch _ _ _ _ h0)
-        · split
-          · exact ih st last true r hA' h0
-          · exact mono _ _ _ h0 (by omega)
-          · rename_i renamed hp
-            exact ih _ renamed false r hA' (hren _ _ _ _ _ _ h1 hAn hidx hp)
-
-/-! ### the probe loop -/
-
-/-- positions in `files` that the probe loop visits: the file called `name` and then the ones the
-index records for `name_cnt`, `name_{cnt+1}`, … (k of them) -/
-def chain (st : St) (name : Bytes) : Nat → Nat → Nat → List Nat
-  | 0, idx, _ => [idx]
-  | k + 1, idx, cnt => idx :: chain st name k ((st.index (sib name cnt)).getD 0) (cnt + 1)
-
-/-- the chain of a Feed item: `idx = index[name]`, then `index[name_1] … index[name_count]` -/
-def siblings (st : St) (name : Bytes) (idx : Nat) : List Nat := chain st name (st.count name) idx 1
-
-def contentAt (st : St) (i : Nat) : Option Bytes := (st.files[i]?).map (·.2)
-
-theorem probe_fresh_name (st : St) (name content : Bytes) : ∀ (k idx cnt : Nat) (r : Bytes),
-    probe st name content k idx cnt = .fresh r → r = sib name (cnt + k) := by
-  intro k
-  induction k with
-  | zero =>
-    intro idx cnt r h
-    unfold probe at h
-    split at h
-    · cases h
-    · split at h
-      · cases h
-      · injection h with h; simpa using h.symm
-  | succ k ih =>
-    intro idx cnt r h
-    unfold probe at h
-    split at h
-    · cases h
-    · split at h
-      · cases h
-      · have := ih _ _ _ h
-        rw [this]; congr 1; omega
-
-theorem probe_dup_iff (st : St) (name content : Bytes) : ∀ (k idx cnt : Nat),
-    (∀ i ∈ chain st name k idx cnt, i < st.files.length) →
-    (probe st name content k idx cnt = .dup ↔ ∃ i ∈ chain st name k idx cnt, contentAt st i = some content) := by
-  intro k
-  induction k with
-  | zero =>
-    intro idx cnt hv
-    have hlt : idx < st.files.length := hv idx (by simp [chain])
-    unfold probe
-    simp only [chain, List.mem_singleton, exists_eq_left, contentAt]
-    rw [List.getElem?_eq_getElem hlt]
-    simp only [Option.map_some, Option.some.injEq]
-    split <;> simp_all
-  | succ k ih =>
-    intro idx cnt hv
-    have hlt : idx < st.files.length := hv idx (by simp [chain])
-    have hv' := fun i hi => hv i (by simp only [chain, List.mem_cons]; exact Or.inr hi)
-    have := ih ((st.index (sib name cnt)).getD 0) (cnt + 1) hv'
-    unfold probe
-    simp only [chain, List.mem_cons, exists_eq_or_imp, contentAt] at this ⊢
-    rw [List.getElem?_eq_getElem hlt]
-    simp only [Option.map_some, Option.some.injEq]
-    by_cases hc : (st.files[idx]).2 = content
-    · simp [hc]
-    · simp only [hc, if_false, false_or]
-      exact this
-
-theorem probe_no_panic (st : St) (name content : Bytes) : ∀ (k idx cnt : Nat),
-    (∀ i ∈ chain st name k idx cnt, i < st.files.length) →
-    probe st name content k idx cnt ≠ .panic := by
-  intro k
-  induction k with
-  | zero =>
-    intro idx cnt hv
-    have hlt : idx < st.files.length := hv idx (by simp [chain])
-    unfold probe
-    rw [List.getElem?_eq_getElem hlt]
-    simp only
-    split <;> simp
-  | succ k ih =>
-    intro idx cnt hv
-    have hlt : idx < st.files.length := hv idx (by simp [chain])
-    have hv' := fun i hi => hv i (by simp only [chain, List.mem_cons]; exact Or.inr hi)
-    unfold probe
-    rw [List.getElem?_eq_getElem hlt]
-    simp only
-    split
-    · simp
-    · exact ih _ _ hv'
-
-/-! ### the cases of FileLoop as equations -/
-
-theorem feedLoop_skip_unnamed (ups rest : List Item) (hu : ∀ u ∈ ups, u.name = none) (st : St) (last : Bytes) :
-    feedLoop st last true (ups ++ rest) = feedLoop st last true rest := by
-  induction ups with
-  | nil => rfl
-  | cons u us ih =>
-    have h1 : u.name = none := hu u List.mem_cons_self
-    have := ih (fun x hx => hu x (List.mem_cons_of_mem _ hx))
-    simp only [List.cons_append]
-    rw [feedLoop]
-    simp only [h1, if_true]
-    exact this
-
-theorem feedLoop_unnamed_patch (st : St) (last : Bytes) (f : Item) (rest : List Item)
-    (hn : f.name = none) (hl : last ≠ []) :
-    feedLoop st last false (f :: rest) = feedLoop (addPatch st last f) last false rest := by
-  rw [feedLoop]; simp [hn, hl]
-
-theorem feedLoop_unnamed_err (st : St) (f : Item) (rest : List Item) (hn : f.name = none) :
-    feedLoop st [] false (f :: rest) = (st, .err) := by
-  rw [feedLoop]; simp [hn]
-
-theorem feedLoop_new (st : St) (last : Bytes) (skip : Bool) (f : Item) (rest : List Item) (name : Bytes)
-    (hn : f.name = some name) (hi : st.index name = none) :
-    feedLoop st last skip (f :: rest) = feedLoop (addFile st name f.content) name false rest := by
-  rw [feedLoop]; simp [hn, hi]
-
-theorem feedLoop_named_patch (st : St) (last : Bytes) (skip : Bool) (f : Item) (rest : List Item) (name : Bytes) (idx : Nat)
-    (hn : f.name = some name) (hi : st.index name = some idx) (hip : f.ip ≠ []) :
-    feedLoop st last skip (f :: rest) = feedLoop (addPatch st name f) name false rest := by
-  rw [feedLoop]; simp [hn, hi, hip]
-
-theorem feedLoop_dup (st : St) (last : Bytes) (skip : Bool) (f : Item) (name : Bytes) (idx : Nat) (ups rest : List Item)
-    (hn : f.name = some name) (hi : st.index name = some idx) (hip : f.ip = [])
-    (hv : ∀ i ∈ siblings st name idx, i < st.files.length)
-    (hd : ∃ i ∈ siblings st name idx, contentAt st i = some f.content)
-    (hu : ∀ u ∈ ups, u.name = none) :
-    feedLoop st last skip (f :: (ups ++ rest)) = feedLoop st last true rest := by
-  have hp : probe st name f.content (st.count name) idx 1 = .dup := (probe_dup_iff st name f.content _ _ _ hv).2 hd
-  rw [feedLoop]
-  simp only [hn, hi, hip, hp]
-  simpa using feedLoop_skip_unnamed ups rest hu st last
-
-theorem feedLoop_conflict (st : St) (last : Bytes) (skip : Bool) (f : Item) (name : Bytes) (idx : Nat) (rest : List Item)
-    (hn : f.name = some name) (hi : st.index name = some idx) (hip : f.ip = [])
-    (hv : ∀ i ∈ siblings st name idx, i < st.files.length)
-    (hd : ¬ ∃ i ∈ siblings st name idx, contentAt st i = some f.content) :
-    feedLoop st last skip (f :: rest) =
-      feedLoop (renameSt st name (sib name (st.count name + 1)) f.content) (sib name (st.count name + 1)) false rest := by
-  have h1 : probe st name f.content (st.count name) idx 1 ≠ .dup := fun h => hd ((probe_dup_iff st name f.content _ _ _ hv).1 h)
-  have h2 := probe_no_panic st name f.content _ _ _ hv
-  rw [feedLoop]
-  simp only [hn, hi, hip]
-  cases hp : probe st name f.content (st.count name) idx 1 with
-  | dup => exact absurd hp h1
-  | panic => exact absurd hp h2
-  | fresh r =>
-    have := probe_fresh_name st name f.content _ _ _ _ hp
-    have e : 1 + st.count name = st.count name + 1 := by omega
-    rw [e] at this
-    subst this
-    simp [renameSt]
-
-/-! ### the invariant that holds after every history -/
-
-/-- `m` is `name` or one of the names Feed derives from it -/
-def Fam (name m : Bytes) : Prop := m = name ∨ ∃ j, 1 ≤ j ∧ m = sib name j
-
-structure Inv (st : St) : Prop where
-  idx : ∀ n i, st.index n = some i → ∃ c, st.files[i]? = some (n, c)
-  sibs : ∀ n k, 1 ≤ k → k ≤ st.count n → ∃ i, st.index (sib n k) = some i
-
-theorem Inv.init : Inv St.init := ⟨by simp [St.init], by intro n k h1 h2; simp [St.init] at h2; omega⟩
-
-theorem Inv.addPatch {st : St} (h : Inv st) (t : Bytes) (f : Item) : Inv (addPatch st t f) := ⟨h.idx, h.sibs⟩
-
-theorem addFile_idx {st : St} (h : Inv st) (name c : Bytes) :
-    ∀ n i, (addFile st name c).index n = some i → ∃ c', (addFile st name c).files[i]? = some (n, c') := by
-  intro n i hi
-  simp only [addFile, upd] at hi ⊢
-  by_cases hn : n = name
-  · subst hn
-    simp at hi; subst hi
-    exact ⟨c, by simp⟩
-  · simp only [hn, if_false] at hi
-    obtain ⟨c', hc⟩ := h.idx n i hi
-    have hlt : i < st.files.length := by
-      rcases Nat.lt_or_ge i st.files.length with h' | h'
-      · exact h'
-      · rw [List.getElem?_eq_none h'] at hc; cases hc
-    exact ⟨c', by rw [List.getElem?_append_left hlt]; exact hc⟩
-
-theorem Inv.addFile {st : St} (h : Inv st) (name c : Bytes) : Inv (addFile st name c) := by
-  refine ⟨addFile_idx h name c, ?_⟩
-  intro n k h1 h2
-  obtain ⟨i, hi⟩ := h.sibs n k h1 h2
-  simp only [FileManager.addFile, upd]
-  by_cases e : sib n k = name
-  · exact ⟨st.files.length, by simp [e]⟩
-  · exact ⟨i, by simp [e, hi]⟩
-
-theorem Inv.renameSt {st : St} (h : Inv st) (name c : Bytes) :
-    Inv (renameSt st name (sib name (st.count name + 1)) c) := by
-  refine ⟨addFile_idx h _ c, ?_⟩
-  intro n k h1 h2
-  simp only [FileManager.renameSt, FileManager.addFile, upd] at h2 ⊢
-  by_cases e : sib n k = sib name (st.count name + 1)
-  · exact ⟨st.files.length, by simp [e]⟩
-  · simp only [e, if_false]
-    by_cases hn : n = name
-    · subst hn
-      simp only [if_true] at h2
-      have : k ≤ st.count n := by
-        rcases Nat.lt_or_ge (st.count n) k with h' | h'
-        · have : k = st.count n + 1 := by omega
-          subst this; exact absurd rfl e
-        · exact h'
-      exact h.sibs n k h1 this
-    · simp only [hn, if_false] at h2
-      exact h.sibs n k h1 h2
-
-/-- under the invariant every position the probe loop visits exists and holds a file of the family -/
-theorem chain_fam {st : St} (h : Inv st) (name : Bytes) : ∀ (k idx cnt : Nat),
-    1 ≤ cnt → cnt + k = st.count name + 1 →
-    (∃ m c, st.files[idx]? = some (m, c) ∧ Fam name m) →
-    ∀ i ∈ chain st name k idx cnt, ∃ m c, st.files[i]? = some (m, c) ∧ Fam name m := by
-  intro k
-  induction k with
-  | zero => intro idx cnt _ _ h0 i hi; simp [chain] at hi; subst hi; exact h0
-  | succ k ih =>
-    intro idx cnt h1 h2 h0 i hi
-    simp only [chain, List.mem_cons] at hi
-    rcases hi with rfl | hi
-    · exact h0
-    · obtain ⟨j, hj⟩ := h.sibs name cnt h1 (by omega)
-      obtain ⟨c, hc⟩ := h.idx _ _ hj
-      refine ih _ (cnt + 1) (by omega) (by omega) ?_ i hi
-      rw [hj]; exact ⟨_, c, hc, Or.inr ⟨cnt, h1, rfl⟩⟩
-
-theorem siblings_fam {st : St} (h : Inv st) (name : Bytes) (idx : Nat) (hi : st.index name = some idx) :
-    ∀ i ∈ siblings st name idx, ∃ m c, st.files[i]? = some (m, c) ∧ Fam name m := by
-  obtain ⟨c, hc⟩ := h.idx _ _ hi
-  exact chain_fam h name _ idx 1 (by omega) (by omega) ⟨name, c, hc, Or.inl rfl⟩
-
-theorem siblings_valid {st : St} (h : Inv st) (name : Bytes) (idx : Nat) (hi : st.index name = some idx) :
-    ∀ i ∈ siblings st name idx, i < st.files.length := by
-  intro i hm
-  obtain ⟨m, c, hc, _⟩ := siblings_fam h name idx hi i hm
-  rcases Nat.lt_or_ge i st.files.length with h' | h'
-  · exact h'
-  · rw [List.getElem?_eq_none h'] at hc; cases hc
-
-theorem Inv.feedLoop {st : St} (h : Inv st) (items : List Item) (last : Bytes) (skip : Bool) :
-    Inv (feedLoop st last skip items).1 := by
-  refine feedLoop_inv (fun st _ => Inv st) (fun _ => True) (fun _ _ _ h _ => h) (fun _ t f _ h => h.addPatch t f)
-    (fun _ name c _ h _ _ => h.addFile name c) ?_ items st last skip 0 (fun _ _ _ _ => trivial) h
-  intro st name idx c renamed _ h _ _ hp
-  have := probe_fresh_name st name c _ _ _ _ hp
-  have e : 1 + st.count name = st.count name + 1 := by omega
-  rw [e] at this; subst this
-  exact h.renameSt name c
-
-theorem Inv.feedAll (calls : List (List Item)) : ∀ {st : St}, Inv st → Inv (feedAll st calls) := by
-  induction calls with
-  | nil => intro st h; exact h
-  | cons c cs ih => intro st h; exact ih (h.feedLoop c [] false)
-
-theorem feedLoop_no_panic (items : List Item) : ∀ (st : St) (last : Bytes) (skip : Bool), Inv st →
-    (feedLoop st last skip items).2 ≠ .panic := by
-  induction items with
-  | nil => intro st last skip _; simp [feedLoop]
+  | nil => intro st last skip h; simpa [feedLoop] using h
   | cons f rest ih =>
     intro st last skip h
     unfold feedLoop
@@ -396,190 +108,141 @@ theorem feedLoop_no_panic (items : List Item) : ∀ (st : St) (last : Bytes) (sk
     · split
       · exact ih st last true h
       · split
-        · simp
-        · exact ih _ last false (h.addPatch _ _)
-    · rename_i name _
+        · exact h
+        · exact ih _ last false (hpatch _ _ _ h)
+    · rename_i name hname
       split
-      · exact ih _ name false (h.addFile _ _)
+      · rename_i hidx
+        exact ih _ name false (hnew _ _ _ h hidx)
       · rename_i idx hidx
         split
-        · exact ih _ name false (h.addPatch _ _)
+        · exact ih _ name false (hpatch _ _ _ h)
         · split
           · exact ih st last true h
-          · rename_i hp
-            exact absurd hp (probe_no_panic st name f.content _ _ _ (siblings_valid h name idx hidx))
-          · rename_i renamed hp
-            have := probe_fresh_name st name f.content _ _ _ _ hp
-            have e : 1 + st.count name = st.count name + 1 := by omega
-            rw [e] at this; subst this
-            exact ih _ _ false (h.renameSt name f.content)
-
-theorem outcomes_no_panic (calls : List (List Item)) : ∀ (st : St), Inv st → Outcome.panic ∉ outcomes st calls := by
-  induction calls with
-  | nil => intro st _; simp [outcomes]
-  | cons c cs ih =>
-    intro st h
-    simp only [outcomes, List.mem_cons, not_or]
-    exact ⟨fun e => feedLoop_no_panic c st [] false h e.symm, ih _ (h.feedLoop c [] false)⟩
-
-/-! ### errors -/
-
-theorem sib_ne_nil (name : Bytes) (k : Nat) : sib name k ≠ [] := by
-  unfold sib sibRev
-  split <;> simp
-
-/-- once the loop has a target (`last ≠ ""`) or is skipping, it never reports the missing-target error -/
-theorem feedLoop_no_err (items : List Item) : ∀ (st : St) (last : Bytes) (skip : Bool),
-    (∀ f ∈ items, f.name ≠ some []) → (skip = true ∨ last ≠ []) →
-    (feedLoop st last skip items).2 ≠ .err := by
-  induction items with
-  | nil => intro st last skip _ _; simp [feedLoop]
-  | cons f rest ih =>
-    intro st last skip hne hs
-    have hne' : ∀ g ∈ rest, g.name ≠ some [] := fun g hg => hne g (List.mem_cons_of_mem _ hg)
-    unfold feedLoop
-    split
-    · split
-      · exact ih st last true hne' (Or.inl rfl)
-      · rename_i hsk
-        have hl : last ≠ [] := by
-          rcases hs with h | h
-          · exact absurd h hsk
           · exact h
-        simp only [hl, if_false]
-        exact ih _ last false hne' (Or.inr hl)
-    · rename_i name hname
-      have hnn : name ≠ [] := fun e => hne f List.mem_cons_self (by rw [hname, e])
-      split
-      · exact ih _ name false hne' (Or.inr hnn)
-      · split
-        · exact ih _ name false hne' (Or.inr hnn)
-        · split
-          · exact ih st last true hne' (Or.inl rfl)
-          · simp
+          · exact h
           · rename_i renamed hp
-            have := probe_fresh_name st name f.content _ _ _ _ hp
-            exact ih _ renamed false hne' (Or.inr (this ▸ sib_ne_nil _ _))
+            exact ih _ renamed false (hren _ _ _ _ _ h hidx hp)
 
-theorem feed_err_iff (st : St) (items : List Item) (hne : ∀ f ∈ items, f.name ≠ some []) :
-    (feed st items).2 = .err ↔ ∃ f rest, items = f :: rest ∧ f.name = none := by
-  cases items with
-  | nil => simp [feed, feedLoop]
-  | cons f rest =>
-    constructor
-    · intro h
-      refine ⟨f, rest, rfl, ?_⟩
-      cases hn : f.name with
-      | none => rfl
-      | some name =>
-        exfalso
-        have hne' : ∀ g ∈ rest, g.name ≠ some [] := fun g hg => hne g (List.mem_cons_of_mem _ hg)
-        have hnn : name ≠ [] := fun e => hne f List.mem_cons_self (by rw [hn, e])
-        unfold feed feedLoop at h
-        simp only [hn] at h
-        split at h
-        · exact feedLoop_no_err rest _ name false hne' (Or.inr hnn) h
-        · split at h
-          · exact feedLoop_no_err rest _ name false hne' (Or.inr hnn) h
-          · split at h
-            · exact feedLoop_no_err rest _ _ true hne' (Or.inl rfl) h
-            · cases h
-            · rename_i renamed hp
-              have := probe_fresh_name st name f.content _ _ _ _ hp
-              exact feedLoop_no_err rest _ renamed false hne' (Or.inr (this ▸ sib_ne_nil _ _)) h
-    · rintro ⟨g, r, e, hn⟩
-      cases e
-      rw [feed, feedLoop_unnamed_err st f rest hn]
+/-! ### the probe loop -/
 
-/-! ### nothing is lost -/
+/-- positions in `files` that the probe loop visits: `idx`, then the position the index records for
+`name_cnt` if that name is taken, then for `name_{cnt+1}`, … up to the first free name -/
+def chain (st : St) (name : Bytes) : Nat → Nat → Nat → List Nat
+  | 0, _, _ => []
+  | fuel + 1, idx, cnt =>
+    idx :: match st.index (sib name cnt) with
+      | none => []
+      | some next => chain st name fuel next (cnt + 1)
 
-/-- a file with this content is stored under `name` or under a name derived from `name` -/
-def Stored (st : St) (name content : Bytes) : Prop := ∃ m, (m, content) ∈ st.files ∧ Fam name m
+/-- the chain of a Feed item: `idx = index[name]`, then `index[name_1]`, `index[name_2]`, … while taken -/
+def siblings (st : St) (name : Bytes) (idx : Nat) : List Nat := chain st name (st.files.length + 1) idx 1
 
-theorem Stored.mono {st st' : St} {name content : Bytes} (h : Stored st name content)
-    (hp : ∃ ex, st'.files = st.files ++ ex) : Stored st' name content := by
-  obtain ⟨m, hm, hf⟩ := h
-  obtain ⟨ex, he⟩ := hp
-  exact ⟨m, by rw [he]; exact List.mem_append_left _ hm, hf⟩
+def contentAt (st : St) (i : Nat) : Option Bytes := (st.files[i]?).map (·.2)
 
-theorem feedLoop_unnamed_skip (st : St) (last : Bytes) (f : Item) (rest : List Item) (hn : f.name = none) :
-    feedLoop st last true (f :: rest) = feedLoop st last true rest := by
-  rw [feedLoop]; simp [hn]
+theorem probe_fresh_spec (st : St) (name content : Bytes) : ∀ (fuel idx cnt : Nat) (r : Bytes),
+    probe st name content fuel idx cnt = .fresh r →
+    ∃ k, cnt ≤ k ∧ r = sib name k ∧ st.index r = none ∧ ∀ j, cnt ≤ j → j < k → st.index (sib name j) ≠ none := by
+  intro fuel
+  induction fuel with
+  | zero => intro idx cnt r h; simp [probe] at h
+  | succ fuel ih =>
+    intro idx cnt r h
+    unfold probe at h
+    split at h
+    · cases h
+    · split at h
+      · cases h
+      · split at h
+        · rename_i hnone
+          injection h with h
+          subst h
+          exact ⟨cnt, Nat.le_refl _, rfl, hnone, fun j h1 h2 => by omega⟩
+        · rename_i next hsome
+          obtain ⟨k, hk, hr, hn, hall⟩ := ih _ _ _ h
+          refine ⟨k, by omega, hr, hn, ?_⟩
+          intro j h1 h2
+          by_cases e : j = cnt
+          · subst e; rw [hsome]; simp
+          · exact hall j (by omega) h2
 
-theorem feedLoop_probe (st : St) (last : Bytes) (skip : Bool) (f : Item) (rest : List Item) (name : Bytes) (idx : Nat)
-    (hn : f.name = some name) (hi : st.index name = some idx) (hip : f.ip = []) :
-    feedLoop st last skip (f :: rest) =
-      match probe st name f.content (st.count name) idx 1 with
-      | .dup => feedLoop st last true rest
-      | .panic => (st, .panic)
-      | .fresh renamed => feedLoop (renameSt st name renamed f.content) renamed false rest := by
-  rw [feedLoop]; simp only [hn, hi, hip]; rfl
-
-theorem lost_aux (rest : List Item) (st1 : St) (l1 : Bytes) (s1 : Bool) (f : Item)
-    (ih : ∀ g ∈ rest, ∀ n, g.name = some n → g.ip = [] → Stored (feedLoop st1 l1 s1 rest).1 n g.content)
-    (hhead : ∀ n, f.name = some n → f.ip = [] → Stored st1 n f.content) :
-    ∀ g ∈ f :: rest, ∀ n, g.name = some n → g.ip = [] → Stored (feedLoop st1 l1 s1 rest).1 n g.content := by
-  intro g hg n hn hip
-  rcases List.mem_cons.mp hg with rfl | hg'
-  · exact (hhead n hn hip).mono (feedLoop_files_prefix rest st1 l1 s1)
-  · exact ih g hg' n hn hip
-
-theorem feedLoop_nothing_lost (items : List Item) : ∀ (st : St) (last : Bytes) (skip : Bool), Inv st →
-    (feedLoop st last skip items).2 = .ok →
-    ∀ f ∈ items, ∀ n, f.name = some n → f.ip = [] → Stored (feedLoop st last skip items).1 n f.content := by
-  induction items with
-  | nil => intro st last skip _ _ f hf; cases hf
-  | cons f rest ih =>
-    intro st last skip h hok
-    cases hn : f.name with
-    | none =>
-      have hhead : ∀ (s : St) n, f.name = some n → f.ip = [] → Stored s n f.content := by
-        intro s n e; rw [hn] at e; cases e
-      cases skip with
-      | true =>
-        rw [feedLoop_unnamed_skip st last f rest hn] at hok ⊢
-        exact lost_aux rest st last true f (ih st last true h hok) (hhead st)
-      | false =>
-        by_cases hl : last = []
-        · subst hl
-          rw [feedLoop_unnamed_err st f rest hn] at hok; cases hok
-        · rw [feedLoop_unnamed_patch st last f rest hn hl] at hok ⊢
-          exact lost_aux rest _ last false f (ih _ last false (h.addPatch _ _) hok) (hhead _)
-    | some name =>
-      cases hi : st.index name with
+theorem probe_dup_iff (st : St) (name content : Bytes) : ∀ (fuel idx cnt : Nat),
+    (∀ i ∈ chain st name fuel idx cnt, i < st.files.length) →
+    (probe st name content fuel idx cnt = .dup ↔ ∃ i ∈ chain st name fuel idx cnt, contentAt st i = some content) := by
+  intro fuel
+  induction fuel with
+  | zero => intro idx cnt _; simp [probe, chain]
+  | succ fuel ih =>
+    intro idx cnt hv
+    have hlt : idx < st.files.length := hv idx (by simp [chain])
+    unfold probe
+    rw [List.getElem?_eq_getElem hlt]
+    simp only
+    by_cases hc : (st.files[idx]).2 = content
+    · simp only [hc, if_true, true_iff]
+      exact ⟨idx, by simp [chain], by simp [contentAt, List.getElem?_eq_getElem hlt, hc]⟩
+    · simp only [hc, if_false]
+      have hidx : ¬ contentAt st idx = some content := by
+        simp [contentAt, List.getElem?_eq_getElem hlt, hc]
+      cases hs : st.index (sib name cnt) with
       | none =>
-        rw [feedLoop_new st last skip f rest name hn hi] at hok ⊢
-        refine lost_aux rest _ name false f (ih _ name false (h.addFile _ _) hok) ?_
-        intro n e _
-        rw [hn] at e; cases e
-        exact ⟨name, by simp [addFile], Or.inl rfl⟩
-      | some idx =>
-        by_cases hip : f.ip = []
-        · rw [feedLoop_probe st last skip f rest name idx hn hi hip] at hok ⊢
-          have hv := siblings_valid h name idx hi
-          cases hp : probe st name f.content (st.count name) idx 1 with
-          | dup =>
-            rw [hp] at hok; simp only at hok ⊢
-            refine lost_aux rest st last true f (ih st last true h hok) ?_
-            intro n e _
-            rw [hn] at e; cases e
-            obtain ⟨i, him, hc⟩ := (probe_dup_iff st name f.content _ _ _ hv).1 hp
-            obtain ⟨m, c, hmc, hfam⟩ := siblings_fam h name idx hi i him
-            simp only [contentAt, hmc, Option.map_some, Option.some.injEq] at hc
-            subst hc
-            exact ⟨m, List.mem_of_getElem? hmc, hfam⟩
-          | panic => rw [hp] at hok; simp only at hok; cases hok
-          | fresh renamed =>
-            rw [hp] at hok; simp only at hok ⊢
-            have hr := probe_fresh_name st name f.content _ _ _ _ hp
-            have e : 1 + st.count name = st.count name + 1 := by omega
-            rw [e] at hr; subst hr
-            refine lost_aux rest _ _ false f (ih _ _ false (h.renameSt name f.content) hok) ?_
-            intro n e _
-            rw [hn] at e; cases e
-            exact ⟨_, by simp [renameSt, addFile], Or.inr ⟨st.count name + 1, by omega, rfl⟩⟩
-        · rw [feedLoop_named_patch st last skip f rest name idx hn hi hip] at hok ⊢
-          exact lost_aux rest _ name false f (ih _ name false (h.addPatch _ _) hok) (fun n _ e => absurd e hip)
+        simp only [chain, hs, List.mem_singleton, exists_eq_left]
+        constructor
+        · intro h; cases h
+        · intro h; exact absurd h hidx
+      | some next =>
+        have hv' : ∀ i ∈ chain st name fuel next (cnt + 1), i < st.files.length := by
+          intro i hi; exact hv i (by simp only [chain, hs, List.mem_cons]; exact Or.inr hi)
+        simp only [chain, hs, List.mem_cons, exists_eq_or_imp]
+        rw [ih next (cnt + 1) hv']
+        constructor
+        · intro h; exact Or.inr h
+        · rintro (h | h)
+          · exact absurd h hidx
+          · exact h
+
+theorem probe_no_panic (st : St) (name content : Bytes) : ∀ (fuel idx cnt : Nat),
+    (∀ i ∈ chain st name fuel idx cnt, i < st.files.length) →
+    probe st name content fuel idx cnt ≠ .panic := by
+  intro fuel
+  induction fuel with
+  | zero => intro idx cnt _; simp [probe]
+  | succ fuel ih =>
+    intro idx cnt hv
+    have hlt : idx < st.files.length := hv idx (by simp [chain])
+    unfold probe
+    rw [List.getElem?_eq_getElem hlt]
+    simp only
+    split
+    · simp
+    · cases hs : st.index (sib name cnt) with
+      | none => simp
+      | some next =>
+        simp only
+        exact ih next (cnt + 1) (fun i hi => hv i (by simp only [chain, hs, List.mem_cons]; exact Or.inr hi))
+
+/-- the loop can only run out of fuel if all the candidate names it looked at were taken -/
+theorem probe_hang (st : St) (name content : Bytes) : ∀ (fuel idx cnt : Nat),
+    probe st name content fuel idx cnt = .hang → ∀ j, j < fuel → st.index (sib name (cnt + j)) ≠ none := by
+  intro fuel
+  induction fuel with
+  | zero => intro idx cnt _ j hj; omega
+  | succ fuel ih =>
+    intro idx cnt h j hj
+    unfold probe at h
+    split at h
+    · cases h
+    · split at h
+      · cases h
+      · split at h
+        · cases h
+        · rename_i next hsome
+          cases j with
+          | zero => rw [Nat.add_zero, hsome]; simp
+          | succ j =>
+            have := ih _ _ h j (by omega)
+            have e : cnt + (j + 1) = cnt + 1 + j := by omega
+            rw [e]; exact this
 
 /-! ### renamed names are injective in (name, k) -/
 
@@ -813,39 +476,390 @@ theorem sib_inj (a b : Bytes) (k j : Nat) (h : sib a k = sib b j) : a = b ∧ k 
   obtain ⟨e1, e2⟩ := sibRev_inj _ _ _ _ (List.reverse_inj.mp h)
   exact ⟨List.reverse_inj.mp e1, e2⟩
 
-/-! ### unique names, when no submitted name has the shape of a renamed one -/
+/-! ### the invariant that holds after every history -/
 
-/-- names of all named items of a history, and its number of items -/
-def histNames (calls : List (List Item)) : List Bytes := calls.flatten.filterMap (·.name)
-def histLen (calls : List (List Item)) : Nat := calls.flatten.length
+/-- `m` is `name` or one of the names Feed derives from it -/
+def Fam (name m : Bytes) : Prop := m = name ∨ ∃ j, 1 ≤ j ∧ m = sib name j
 
-/-- decidable hypothesis of `names_unique_partial`: no submitted name equals `<pth>_<k><ext>` built
-from a submitted name, for 1 ≤ k ≤ N -/
-def noRenameShaped (S : List Bytes) (N : Nat) : Bool :=
-  S.all fun a => S.all fun b => (List.range N).all fun i => a != sib b (i + 1)
+structure Inv (st : St) : Prop where
+  idx : ∀ n i, st.index n = some i → ∃ c, st.files[i]? = some (n, c)
 
-def NRS (S : List Bytes) (N : Nat) : Prop := ∀ a ∈ S, ∀ b ∈ S, ∀ k, 1 ≤ k → k ≤ N → a ≠ sib b k
+theorem Inv.init : Inv St.init := ⟨by simp [St.init]⟩
 
-theorem nrs_of_bool {S : List Bytes} {N : Nat} (h : noRenameShaped S N = true) : NRS S N := by
-  intro a ha b hb k h1 h2 e
-  simp only [noRenameShaped, List.all_eq_true] at h
-  have := h a ha b hb (k - 1) (List.mem_range.mpr (by omega))
-  have e' : k - 1 + 1 = k := by omega
-  rw [e'] at this
+theorem Inv.addPatch {st : St} (h : Inv st) (t : Bytes) (f : Item) : Inv (addPatch st t f) := ⟨h.idx⟩
+
+theorem Inv.lt {st : St} (h : Inv st) {n : Bytes} {i : Nat} (hi : st.index n = some i) : i < st.files.length := by
+  obtain ⟨c, hc⟩ := h.idx n i hi
+  rcases Nat.lt_or_ge i st.files.length with h' | h'
+  · exact h'
+  · rw [List.getElem?_eq_none h'] at hc; cases hc
+
+theorem addFile_idx {st : St} (h : Inv st) (name c : Bytes) :
+    ∀ n i, (addFile st name c).index n = some i → ∃ c', (addFile st name c).files[i]? = some (n, c') := by
+  intro n i hi
+  simp only [addFile, upd] at hi ⊢
+  by_cases hn : n = name
+  · subst hn
+    simp at hi; subst hi
+    exact ⟨c, by simp⟩
+  · simp only [hn, if_false] at hi
+    obtain ⟨c', hc⟩ := h.idx n i hi
+    exact ⟨c', by rw [List.getElem?_append_left (h.lt hi)]; exact hc⟩
+
+theorem Inv.addFile {st : St} (h : Inv st) (name c : Bytes) : Inv (addFile st name c) := ⟨addFile_idx h name c⟩
+
+theorem Inv.renameSt {st : St} (h : Inv st) (name renamed c : Bytes) : Inv (renameSt st name renamed c) :=
+  ⟨addFile_idx h renamed c⟩
+
+/-- under the invariant every position the probe loop visits exists and holds a file of the family -/
+theorem chain_fam {st : St} (h : Inv st) (name : Bytes) : ∀ (fuel idx cnt : Nat),
+    1 ≤ cnt → (∃ m c, st.files[idx]? = some (m, c) ∧ Fam name m) →
+    ∀ i ∈ chain st name fuel idx cnt, ∃ m c, st.files[i]? = some (m, c) ∧ Fam name m := by
+  intro fuel
+  induction fuel with
+  | zero => intro idx cnt _ _ i hi; simp [chain] at hi
+  | succ fuel ih =>
+    intro idx cnt h1 h0 i hi
+    simp only [chain, List.mem_cons] at hi
+    rcases hi with rfl | hi
+    · exact h0
+    · cases hs : st.index (sib name cnt) with
+      | none => rw [hs] at hi; simp at hi
+      | some next =>
+        rw [hs] at hi
+        obtain ⟨c, hc⟩ := h.idx _ _ hs
+        exact ih next (cnt + 1) (by omega) ⟨_, c, hc, Or.inr ⟨cnt, h1, rfl⟩⟩ i hi
+
+theorem siblings_fam {st : St} (h : Inv st) (name : Bytes) (idx : Nat) (hi : st.index name = some idx) :
+    ∀ i ∈ siblings st name idx, ∃ m c, st.files[i]? = some (m, c) ∧ Fam name m := by
+  obtain ⟨c, hc⟩ := h.idx _ _ hi
+  exact chain_fam h name _ idx 1 (by omega) ⟨name, c, hc, Or.inl rfl⟩
+
+theorem siblings_valid {st : St} (h : Inv st) (name : Bytes) (idx : Nat) (hi : st.index name = some idx) :
+    ∀ i ∈ siblings st name idx, i < st.files.length := by
+  intro i hm
+  obtain ⟨m, c, hc, _⟩ := siblings_fam h name idx hi i hm
+  rcases Nat.lt_or_ge i st.files.length with h' | h'
+  · exact h'
+  · rw [List.getElem?_eq_none h'] at hc; cases hc
+
+/-- termination of the probe loop: `len(files) + 1` rounds would need `len(files) + 1` different taken
+names `name_1 … name_{len+1}` (injectivity of `sib`), each recorded at its own position of `files`. -/
+theorem probe_no_hang {st : St} (h : Inv st) (name content : Bytes) (idx : Nat) :
+    probe st name content (st.files.length + 1) idx 1 ≠ .hang := by
+  intro hh
+  have hall := probe_hang st name content _ _ _ hh
+  let g : Nat → Nat := fun j => (st.index (sib name (1 + j))).getD 0
+  have hg : ∀ j, j < st.files.length + 1 → st.index (sib name (1 + j)) = some (g j) := by
+    intro j hj
+    cases hs : st.index (sib name (1 + j)) with
+    | none => exact absurd hs (hall j hj)
+    | some i => simp [g, hs]
+  have hsub : (List.range (st.files.length + 1)).map g ⊆ List.range st.files.length := by
+    intro x hx
+    obtain ⟨j, hj, rfl⟩ := List.mem_map.mp hx
+    exact List.mem_range.mpr (h.lt (hg j (List.mem_range.mp hj)))
+  have hnd : ((List.range (st.files.length + 1)).map g).Nodup := by
+    rw [List.nodup_iff_pairwise_ne, List.pairwise_map]
+    refine List.Pairwise.imp_of_mem ?_ (List.nodup_range (n := st.files.length + 1))
+    intro a b ha hb hab e
+    obtain ⟨c1, h1⟩ := h.idx _ _ (hg a (List.mem_range.mp ha))
+    obtain ⟨c2, h2⟩ := h.idx _ _ (hg b (List.mem_range.mp hb))
+    rw [e, h2] at h1
+    injection h1 with h1
+    injection h1 with h1 _
+    have := (sib_inj _ _ _ _ h1).2
+    omega
+  have := hnd.length_le_of_subset hsub
   simp at this
-  exact this e
+  omega
 
-structure InvU (S : List Bytes) (N : Nat) (st : St) (r : Nat) : Prop where
+theorem Inv.feedLoop {st : St} (h : Inv st) (items : List Item) (last : Bytes) (skip : Bool) :
+    Inv (feedLoop st last skip items).1 :=
+  feedLoop_inv Inv (fun _ t f h => h.addPatch t f) (fun _ name c h _ => h.addFile name c)
+    (fun _ name _ c renamed h _ _ => h.renameSt name renamed c) items st last skip h
+
+theorem Inv.feedAll (calls : List (List Item)) : ∀ {st : St}, Inv st → Inv (feedAll st calls) := by
+  induction calls with
+  | nil => intro st h; exact h
+  | cons c cs ih => intro st h; exact ih (h.feedLoop c [] false)
+
+theorem feedLoop_no_panic (items : List Item) : ∀ (st : St) (last : Bytes) (skip : Bool), Inv st →
+    (feedLoop st last skip items).2 ≠ .panic ∧ (feedLoop st last skip items).2 ≠ .hang := by
+  induction items with
+  | nil => intro st last skip _; simp [feedLoop]
+  | cons f rest ih =>
+    intro st last skip h
+    unfold feedLoop
+    split
+    · split
+      · exact ih st last true h
+      · split
+        · simp
+        · exact ih _ last false (h.addPatch _ _)
+    · rename_i name _
+      split
+      · exact ih _ name false (h.addFile _ _)
+      · rename_i idx hidx
+        split
+        · exact ih _ name false (h.addPatch _ _)
+        · split
+          · exact ih st last true h
+          · rename_i hp
+            exact absurd hp (probe_no_panic st name f.content _ _ _ (siblings_valid h name idx hidx))
+          · rename_i hp
+            exact absurd hp (probe_no_hang h name f.content idx)
+          · rename_i renamed hp
+            exact ih _ _ false (h.renameSt name renamed f.content)
+
+theorem outcomes_no_panic (calls : List (List Item)) : ∀ (st : St), Inv st →
+    Outcome.panic ∉ outcomes st calls ∧ Outcome.hang ∉ outcomes st calls := by
+  induction calls with
+  | nil => intro st _; simp [outcomes]
+  | cons c cs ih =>
+    intro st h
+    have h1 := feedLoop_no_panic c st [] false h
+    have h2 := ih _ (h.feedLoop c [] false)
+    simp only [outcomes, List.mem_cons, not_or]
+    exact ⟨⟨fun e => h1.1 e.symm, h2.1⟩, ⟨fun e => h1.2 e.symm, h2.2⟩⟩
+
+/-! ### the cases of FileLoop as equations -/
+
+theorem feedLoop_skip_unnamed (ups rest : List Item) (hu : ∀ u ∈ ups, u.name = none) (st : St) (last : Bytes) :
+    feedLoop st last true (ups ++ rest) = feedLoop st last true rest := by
+  induction ups with
+  | nil => rfl
+  | cons u us ih =>
+    have h1 : u.name = none := hu u List.mem_cons_self
+    have := ih (fun x hx => hu x (List.mem_cons_of_mem _ hx))
+    simp only [List.cons_append]
+    rw [feedLoop]
+    simp only [h1, if_true]
+    exact this
+
+theorem feedLoop_unnamed_skip (st : St) (last : Bytes) (f : Item) (rest : List Item) (hn : f.name = none) :
+    feedLoop st last true (f :: rest) = feedLoop st last true rest := by
+  rw [feedLoop]; simp [hn]
+
+theorem feedLoop_unnamed_patch (st : St) (last : Bytes) (f : Item) (rest : List Item)
+    (hn : f.name = none) (hl : last ≠ []) :
+    feedLoop st last false (f :: rest) = feedLoop (addPatch st last f) last false rest := by
+  rw [feedLoop]; simp [hn, hl]
+
+theorem feedLoop_unnamed_err (st : St) (f : Item) (rest : List Item) (hn : f.name = none) :
+    feedLoop st [] false (f :: rest) = (st, .err) := by
+  rw [feedLoop]; simp [hn]
+
+theorem feedLoop_new (st : St) (last : Bytes) (skip : Bool) (f : Item) (rest : List Item) (name : Bytes)
+    (hn : f.name = some name) (hi : st.index name = none) :
+    feedLoop st last skip (f :: rest) = feedLoop (addFile st name f.content) name false rest := by
+  rw [feedLoop]; simp [hn, hi]
+
+theorem feedLoop_named_patch (st : St) (last : Bytes) (skip : Bool) (f : Item) (rest : List Item) (name : Bytes) (idx : Nat)
+    (hn : f.name = some name) (hi : st.index name = some idx) (hip : f.ip ≠ []) :
+    feedLoop st last skip (f :: rest) = feedLoop (addPatch st name f) name false rest := by
+  rw [feedLoop]; simp [hn, hi, hip]
+
+theorem feedLoop_probe (st : St) (last : Bytes) (skip : Bool) (f : Item) (rest : List Item) (name : Bytes) (idx : Nat)
+    (hn : f.name = some name) (hi : st.index name = some idx) (hip : f.ip = []) :
+    feedLoop st last skip (f :: rest) =
+      match probe st name f.content (st.files.length + 1) idx 1 with
+      | .dup => feedLoop st last true rest
+      | .panic => (st, .panic)
+      | .hang => (st, .hang)
+      | .fresh renamed => feedLoop (renameSt st name renamed f.content) renamed false rest := by
+  rw [feedLoop]; simp only [hn, hi, hip]; rfl
+
+theorem feedLoop_dup (st : St) (last : Bytes) (skip : Bool) (f : Item) (name : Bytes) (idx : Nat) (ups rest : List Item)
+    (hn : f.name = some name) (hi : st.index name = some idx) (hip : f.ip = [])
+    (hv : ∀ i ∈ siblings st name idx, i < st.files.length)
+    (hd : ∃ i ∈ siblings st name idx, contentAt st i = some f.content)
+    (hu : ∀ u ∈ ups, u.name = none) :
+    feedLoop st last skip (f :: (ups ++ rest)) = feedLoop st last true rest := by
+  have hp : probe st name f.content (st.files.length + 1) idx 1 = .dup := (probe_dup_iff st name f.content _ _ _ hv).2 hd
+  rw [feedLoop_probe st last skip f _ name idx hn hi hip, hp]
+  exact feedLoop_skip_unnamed ups rest hu st last
+
+theorem feedLoop_conflict (st : St) (hI : Inv st) (last : Bytes) (skip : Bool) (f : Item) (name : Bytes) (idx : Nat) (rest : List Item)
+    (hn : f.name = some name) (hi : st.index name = some idx) (hip : f.ip = [])
+    (hd : ¬ ∃ i ∈ siblings st name idx, contentAt st i = some f.content) :
+    ∃ k, 1 ≤ k ∧ st.index (sib name k) = none ∧ (∀ j, 1 ≤ j → j < k → st.index (sib name j) ≠ none) ∧
+      feedLoop st last skip (f :: rest) =
+        feedLoop (renameSt st name (sib name k) f.content) (sib name k) false rest := by
+  have hv := siblings_valid hI name idx hi
+  have h1 : probe st name f.content (st.files.length + 1) idx 1 ≠ .dup := fun h => hd ((probe_dup_iff st name f.content _ _ _ hv).1 h)
+  have h2 := probe_no_panic st name f.content _ _ _ hv
+  have h3 := probe_no_hang hI name f.content idx
+  cases hp : probe st name f.content (st.files.length + 1) idx 1 with
+  | dup => exact absurd hp h1
+  | panic => exact absurd hp h2
+  | hang => exact absurd hp h3
+  | fresh r =>
+    obtain ⟨k, hk, hr, hnone, hall⟩ := probe_fresh_spec st name f.content _ _ _ _ hp
+    subst hr
+    refine ⟨k, hk, hnone, hall, ?_⟩
+    rw [feedLoop_probe st last skip f rest name idx hn hi hip, hp]
+
+/-! ### errors -/
+
+theorem sib_ne_nil (name : Bytes) (k : Nat) : sib name k ≠ [] := by
+  unfold sib sibRev
+  split <;> simp
+
+theorem fresh_ne_nil {st : St} {name content : Bytes} {fuel idx cnt : Nat} {r : Bytes}
+    (hp : probe st name content fuel idx cnt = .fresh r) : r ≠ [] := by
+  obtain ⟨k, _, hr, _, _⟩ := probe_fresh_spec st name content _ _ _ _ hp
+  rw [hr]; exact sib_ne_nil _ _
+
+/-- once the loop has a target (`last ≠ ""`) or is skipping, it never reports the missing-target error -/
+theorem feedLoop_no_err (items : List Item) : ∀ (st : St) (last : Bytes) (skip : Bool),
+    (∀ f ∈ items, f.name ≠ some []) → (skip = true ∨ last ≠ []) →
+    (feedLoop st last skip items).2 ≠ .err := by
+  induction items with
+  | nil => intro st last skip _ _; simp [feedLoop]
+  | cons f rest ih =>
+    intro st last skip hne hs
+    have hne' : ∀ g ∈ rest, g.name ≠ some [] := fun g hg => hne g (List.mem_cons_of_mem _ hg)
+    unfold feedLoop
+    split
+    · split
+      · exact ih st last true hne' (Or.inl rfl)
+      · rename_i hsk
+        have hl : last ≠ [] := by
+          rcases hs with h | h
+          · exact absurd h hsk
+          · exact h
+        simp only [hl, if_false]
+        exact ih _ last false hne' (Or.inr hl)
+    · rename_i name hname
+      have hnn : name ≠ [] := fun e => hne f List.mem_cons_self (by rw [hname, e])
+      split
+      · exact ih _ name false hne' (Or.inr hnn)
+      · split
+        · exact ih _ name false hne' (Or.inr hnn)
+        · split
+          · exact ih st last true hne' (Or.inl rfl)
+          · simp
+          · simp
+          · rename_i renamed hp
+            exact ih _ renamed false hne' (Or.inr (fresh_ne_nil hp))
+
+theorem feed_err_iff (st : St) (items : List Item) (hne : ∀ f ∈ items, f.name ≠ some []) :
+    (feed st items).2 = .err ↔ ∃ f rest, items = f :: rest ∧ f.name = none := by
+  cases items with
+  | nil => simp [feed, feedLoop]
+  | cons f rest =>
+    constructor
+    · intro h
+      refine ⟨f, rest, rfl, ?_⟩
+      cases hn : f.name with
+      | none => rfl
+      | some name =>
+        exfalso
+        have hne' : ∀ g ∈ rest, g.name ≠ some [] := fun g hg => hne g (List.mem_cons_of_mem _ hg)
+        have hnn : name ≠ [] := fun e => hne f List.mem_cons_self (by rw [hn, e])
+        unfold feed feedLoop at h
+        simp only [hn] at h
+        split at h
+        · exact feedLoop_no_err rest _ name false hne' (Or.inr hnn) h
+        · split at h
+          · exact feedLoop_no_err rest _ name false hne' (Or.inr hnn) h
+          · split at h
+            · exact feedLoop_no_err rest _ _ true hne' (Or.inl rfl) h
+            · cases h
+            · cases h
+            · rename_i renamed hp
+              exact feedLoop_no_err rest _ renamed false hne' (Or.inr (fresh_ne_nil hp)) h
+    · rintro ⟨g, r, e, hn⟩
+      cases e
+      rw [feed, feedLoop_unnamed_err st f rest hn]
+
+/-! ### nothing is lost -/
+
+/-- a file with this content is stored under `name` or under a name derived from `name` -/
+def Stored (st : St) (name content : Bytes) : Prop := ∃ m, (m, content) ∈ st.files ∧ Fam name m
+
+theorem Stored.mono {st st' : St} {name content : Bytes} (h : Stored st name content)
+    (hp : ∃ ex, st'.files = st.files ++ ex) : Stored st' name content := by
+  obtain ⟨m, hm, hf⟩ := h
+  obtain ⟨ex, he⟩ := hp
+  exact ⟨m, by rw [he]; exact List.mem_append_left _ hm, hf⟩
+
+theorem lost_aux (rest : List Item) (st1 : St) (l1 : Bytes) (s1 : Bool) (f : Item)
+    (ih : ∀ g ∈ rest, ∀ n, g.name = some n → g.ip = [] → Stored (feedLoop st1 l1 s1 rest).1 n g.content)
+    (hhead : ∀ n, f.name = some n → f.ip = [] → Stored st1 n f.content) :
+    ∀ g ∈ f :: rest, ∀ n, g.name = some n → g.ip = [] → Stored (feedLoop st1 l1 s1 rest).1 n g.content := by
+  intro g hg n hn hip
+  rcases List.mem_cons.mp hg with rfl | hg'
+  · exact (hhead n hn hip).mono (feedLoop_files_prefix rest st1 l1 s1)
+  · exact ih g hg' n hn hip
+
+theorem feedLoop_nothing_lost (items : List Item) : ∀ (st : St) (last : Bytes) (skip : Bool), Inv st →
+    (feedLoop st last skip items).2 = .ok →
+    ∀ f ∈ items, ∀ n, f.name = some n → f.ip = [] → Stored (feedLoop st last skip items).1 n f.content := by
+  induction items with
+  | nil => intro st last skip _ _ f hf; cases hf
+  | cons f rest ih =>
+    intro st last skip h hok
+    cases hn : f.name with
+    | none =>
+      have hhead : ∀ (s : St) n, f.name = some n → f.ip = [] → Stored s n f.content := by
+        intro s n e; rw [hn] at e; cases e
+      cases skip with
+      | true =>
+        rw [feedLoop_unnamed_skip st last f rest hn] at hok ⊢
+        exact lost_aux rest st last true f (ih st last true h hok) (hhead st)
+      | false =>
+        by_cases hl : last = []
+        · subst hl
+          rw [feedLoop_unnamed_err st f rest hn] at hok; cases hok
+        · rw [feedLoop_unnamed_patch st last f rest hn hl] at hok ⊢
+          exact lost_aux rest _ last false f (ih _ last false (h.addPatch _ _) hok) (hhead _)
+    | some name =>
+      cases hi : st.index name with
+      | none =>
+        rw [feedLoop_new st last skip f rest name hn hi] at hok ⊢
+        refine lost_aux rest _ name false f (ih _ name false (h.addFile _ _) hok) ?_
+        intro n e _
+        rw [hn] at e; cases e
+        exact ⟨name, by simp [addFile], Or.inl rfl⟩
+      | some idx =>
+        by_cases hip : f.ip = []
+        · rw [feedLoop_probe st last skip f rest name idx hn hi hip] at hok ⊢
+          have hv := siblings_valid h name idx hi
+          cases hp : probe st name f.content (st.files.length + 1) idx 1 with
+          | dup =>
+            rw [hp] at hok; simp only at hok ⊢
+            refine lost_aux rest st last true f (ih st last true h hok) ?_
+            intro n e _
+            rw [hn] at e; cases e
+            obtain ⟨i, him, hc⟩ := (probe_dup_iff st name f.content _ _ _ hv).1 hp
+            obtain ⟨m, c, hmc, hfam⟩ := siblings_fam h name idx hi i him
+            simp only [contentAt, hmc, Option.map_some, Option.some.injEq] at hc
+            subst hc
+            exact ⟨m, List.mem_of_getElem? hmc, hfam⟩
+          | panic => rw [hp] at hok; simp only at hok; cases hok
+          | hang => rw [hp] at hok; simp only at hok; cases hok
+          | fresh renamed =>
+            rw [hp] at hok; simp only at hok ⊢
+            obtain ⟨k, hk, hr, _, _⟩ := probe_fresh_spec st name f.content _ _ _ _ hp
+            refine lost_aux rest _ _ false f (ih _ _ false (h.renameSt name renamed f.content) hok) ?_
+            intro n e _
+            rw [hn] at e; cases e
+            exact ⟨renamed, by simp [renameSt, addFile], Or.inr ⟨k, hk, hr⟩⟩
+        · rw [feedLoop_named_patch st last skip f rest name idx hn hi hip] at hok ⊢
+          exact lost_aux rest _ name false f (ih _ name false (h.addPatch _ _) hok) (fun n _ e => absurd e hip)
+
+/-! ### unique names -/
+
+structure InvU (st : St) : Prop where
   nodup : (st.files.map (·.1)).Nodup
   inIdx : ∀ n ∈ st.files.map (·.1), st.index n ≠ none
-  keys : ∀ m, st.index m ≠ none → m ∈ S ∨ ∃ n ∈ S, ∃ k, 1 ≤ k ∧ k ≤ st.count n ∧ m = sib n k
-  budget : ∀ n, st.count n + r ≤ N
 
-theorem InvU.init (S : List Bytes) (N : Nat) : InvU S N St.init N :=
-  ⟨by simp [St.init], by simp [St.init], by simp [St.init], by simp [St.init]⟩
+theorem InvU.init : InvU St.init := ⟨by simp [St.init], by simp [St.init]⟩
 
-theorem invU_add {S : List Bytes} {N : Nat} {st : St} {r : Nat} (h : InvU S N st (r + 1)) (m c : Bytes)
-    (hfree : st.index m = none) :
+/-- storing a file under a name the index does not know keeps names distinct -/
+theorem InvU.add {st : St} (h : InvU st) (m c : Bytes) (hfree : st.index m = none) :
     (((addFile st m c).files.map (·.1)).Nodup) ∧ (∀ n ∈ (addFile st m c).files.map (·.1), (addFile st m c).index n ≠ none) := by
   have hnot : m ∉ st.files.map (·.1) := fun hm => h.inIdx m hm hfree
   constructor
@@ -865,84 +879,24 @@ theorem invU_add {S : List Bytes} {N : Nat} {st : St} {r : Nat} (h : InvU S N st
       · exact h.inIdx n hn
       · exact absurd hn e
 
-theorem InvU.feedLoop {S : List Bytes} {N : Nat} (hS : NRS S N) (items : List Item) (st : St) (last : Bytes) (skip : Bool) (r : Nat)
-    (hA : ∀ f ∈ items, ∀ n, f.name = some n → n ∈ S) (h : InvU S N st (items.length + r)) :
-    InvU S N (feedLoop st last skip items).1 r := by
-  refine feedLoop_inv (InvU S N) (· ∈ S) ?_ ?_ ?_ ?_ items st last skip r hA h
-  · intro st a b h hab
-    exact ⟨h.nodup, h.inIdx, h.keys, fun n => by have := h.budget n; omega⟩
-  · intro st t f r h
-    exact ⟨h.nodup, h.inIdx, h.keys, h.budget⟩
-  · intro st name c r h hAn hidx
-    obtain ⟨h1, h2⟩ := invU_add h name c hidx
-    refine ⟨h1, h2, ?_, fun n => by have := h.budget n; simp only [addFile] at *; omega⟩
-    intro m hm
-    simp only [addFile, upd] at hm ⊢
-    by_cases e : m = name
-    · exact Or.inl (e ▸ hAn)
-    · simp only [e, if_false] at hm
-      exact h.keys m hm
-  · intro st name idx c renamed r h hAn hidx hp
-    have hr := probe_fresh_name st name c _ _ _ _ hp
-    have e : 1 + st.count name = st.count name + 1 := by omega
-    rw [e] at hr; subst hr
-    have hb := h.budget name
-    have hfree : st.index (sib name (st.count name + 1)) = none := by
-      cases hx : st.index (sib name (st.count name + 1)) with
-      | none => rfl
-      | some i =>
-        exfalso
-        rcases h.keys _ (by rw [hx]; simp) with hin | ⟨n, hn, k, hk1, hk2, he⟩
-        · exact hS _ hin name hAn (st.count name + 1) (by omega) (by omega) rfl
-        · obtain ⟨e1, e2⟩ := sib_inj _ _ _ _ he
-          subst e1; omega
-    obtain ⟨h1, h2⟩ := invU_add h (sib name (st.count name + 1)) c hfree
-    refine ⟨h1, h2, ?_, ?_⟩
-    · intro m hm
-      simp only [renameSt, addFile, upd] at hm ⊢
-      by_cases e : m = sib name (st.count name + 1)
-      · exact Or.inr ⟨name, hAn, st.count name + 1, by omega, by simp, e⟩
-      · simp only [e, if_false] at hm
-        rcases h.keys m hm with hin | ⟨n, hn, k, hk1, hk2, he⟩
-        · exact Or.inl hin
-        · refine Or.inr ⟨n, hn, k, hk1, ?_, he⟩
-          by_cases en : n = name
-          · subst en; simp; omega
-          · simp [en]; exact hk2
-    · intro n
-      simp only [renameSt, addFile, upd]
-      by_cases en : n = name
-      · simp [en]; omega
-      · have := h.budget n; simp [en]; omega
+theorem InvU.feedLoop {st : St} (h : InvU st) (items : List Item) (last : Bytes) (skip : Bool) :
+    InvU (feedLoop st last skip items).1 := by
+  refine feedLoop_inv InvU (fun _ _ _ h => ⟨h.nodup, h.inIdx⟩) ?_ ?_ items st last skip h
+  · intro st name c h hidx
+    obtain ⟨h1, h2⟩ := h.add name c hidx
+    exact ⟨h1, h2⟩
+  · intro st name idx c renamed h _ hp
+    obtain ⟨_, _, _, hfree, _⟩ := probe_fresh_spec st name c _ _ _ _ hp
+    obtain ⟨h1, h2⟩ := h.add renamed c hfree
+    exact ⟨h1, h2⟩
 
-theorem histLen_cons (c : List Item) (cs : List (List Item)) : histLen (c :: cs) = c.length + histLen cs := by
-  simp [histLen]
-
-theorem InvU.feedAll {S : List Bytes} {N : Nat} (hS : NRS S N) (calls : List (List Item)) : ∀ (st : St) (r : Nat),
-    (∀ c ∈ calls, ∀ f ∈ c, ∀ n, f.name = some n → n ∈ S) → InvU S N st (histLen calls + r) →
-    InvU S N (feedAll st calls) r := by
+theorem InvU.feedAll (calls : List (List Item)) : ∀ {st : St}, InvU st → InvU (feedAll st calls) := by
   induction calls with
-  | nil => intro st r _ h; simpa [FileManager.feedAll, histLen] using h
-  | cons c cs ih =>
-    intro st r hA h
-    rw [histLen_cons, Nat.add_assoc] at h
-    exact ih _ r (fun c' hc' => hA c' (List.mem_cons_of_mem _ hc'))
-      (InvU.feedLoop hS c st [] false (histLen cs + r) (hA c List.mem_cons_self) h)
-
-theorem mem_histNames (calls : List (List Item)) : ∀ c ∈ calls, ∀ f ∈ c, ∀ n, f.name = some n → n ∈ histNames calls := by
-  intro c hc f hf n hn
-  simp only [histNames, List.mem_filterMap, List.mem_flatten]
-  exact ⟨f, ⟨c, hc, hf⟩, hn⟩
+  | nil => intro st h; exact h
+  | cons c cs ih => intro st h; exact ih (h.feedLoop c [] false)
 
 theorem build_names (cfg : MarkerCfg) (st : St) : (build cfg st).map (·.1) = st.files.map (·.1) := by
   simp [build, List.map_map, Function.comp_def]
-
-theorem names_nodup_of_nrs (cfg : MarkerCfg) (calls : List (List Item))
-    (h : noRenameShaped (histNames calls) (histLen calls) = true) :
-    ((build cfg (feedAll St.init calls)).map (·.1)).Nodup := by
-  rw [build_names]
-  have := InvU.feedAll (nrs_of_bool h) calls St.init 0 (mem_histNames calls) (by simpa using InvU.init _ _)
-  exact this.nodup
 
 /-! ### insertion points: the replacer computes the rendering of the scan -/
 
